@@ -35,9 +35,10 @@ type timer struct {
 
 // Choice is what a policy may pick at a scheduling point: a goroutine or a pending timer.
 type Choice struct {
-	G     *G
-	Timer bool
-	tm    *timer
+	G      *G
+	Timer  bool
+	Poller bool // a goroutine parked in a select round (idle worker, timer loop ...)
+	tm     *timer
 }
 
 // Policy decides every scheduling point.
@@ -245,7 +246,7 @@ func (s *Sched) candidates(self *G) (cands []Choice, cur int) {
 			if g == self {
 				cur = len(cands)
 			}
-			cands = append(cands, Choice{G: g})
+			cands = append(cands, Choice{G: g, Poller: g.poller})
 		}
 	}
 	return cands, cur
